@@ -109,32 +109,49 @@ func guarded(f func()) (panicked any, hung bool) {
 	}
 }
 
+// wildcard: the token the model-side comparison accepts against ANY model token (coq/model/EngineCorr.v).  It is
+// emitted where the implementation says something the projection does not recognise - a failure text that matches
+// none of the known phrases, an engine error code other than 101/102/103: texts and new codes are not part of any
+// property, so a reworded message must not break the tie.  The position, the owning run and the step reference of
+// the event, and the fact that it IS a failure event, are still compared.
+const wildcard = 4000000007
+
+// failCode maps the text of a failure event to the model's failure kind when (and only when) it is one of the
+// phrases of the pinned source; -1 = not recognised (projected as the wildcard).  No oracle decides anything from
+// this: it serves the correspondence and the statistics only.
 func failCode(text string) int {
 	switch {
-	case strings.HasPrefix(text, "reached maximum number of steps per sprint"):
+	case strings.HasPrefix(text, "reached maximum number of steps per sprint ("):
 		return 0
-	case strings.Contains(text, "failed to pick a category"):
+	case strings.HasPrefix(text, "router on node[uuid=") && strings.HasSuffix(text, "] failed to pick a category"):
 		return 1
-	case strings.HasPrefix(text, "child run for flow"):
+	case strings.HasPrefix(text, "child run for flow '") && strings.HasSuffix(text, "' ended in error, ending execution"):
 		return 2
-	case strings.HasPrefix(text, "can't resume run with missing flow asset"):
+	case text == "can't resume run with missing flow asset":
 		return 3
-	case strings.HasPrefix(text, "reached maximum number of resumes per session"):
+	case strings.HasPrefix(text, "reached maximum number of resumes per session ("):
 		return 4
-	case strings.HasPrefix(text, "unable to find resume location"):
+	case strings.HasPrefix(text, "unable to find resume location: "):
 		return 5
-	case strings.HasPrefix(text, "can't resume from node without a router or wait"):
+	case text == "can't resume from node without a router or wait":
 		return 6
-	case strings.HasPrefix(text, "unable to resolve router exit"):
+	case strings.HasPrefix(text, "unable to resolve router exit: "):
 		return 7
-	case strings.HasPrefix(text, "can't resume run as node no longer exists"):
+	case strings.HasPrefix(text, "can't resume run as node no longer exists: "):
 		return 8
-	case strings.HasPrefix(text, "no such flow"):
+	case strings.HasPrefix(text, "no such flow with UUID '"):
 		return 10
-	case strings.HasPrefix(text, "can't enter flow"):
+	case strings.HasPrefix(text, "can't enter ") && strings.Contains(text, " of type "):
 		return 11
 	}
-	return 99
+	return -1
+}
+
+func failToken(text string) int {
+	if c := failCode(text); c >= 0 {
+		return c
+	}
+	return wildcard
 }
 
 var runStatusCode = map[flows.RunStatus]int{flows.RunStatusActive: 0, flows.RunStatusWaiting: 1, flows.RunStatusCompleted: 2,
@@ -214,7 +231,7 @@ func (e *enc) event(s flows.Session, ev flows.Event) {
 		e.n(8)
 	default:
 		if txt, ok := failureText(ev); ok {
-			e.n(9, failCode(txt))
+			e.n(9, failToken(txt))
 		} else {
 			e.n(98)
 			e.text(ev.Type())
@@ -416,7 +433,11 @@ func finish(obs *CallObs, s flows.Session, sp flows.Sprint, err error, p any, hu
 		if ee, ok := err.(*engine.Error); ok {
 			obs.Kind = 1
 			obs.Code = ee.Code()
-			e.n(1, ee.Code())
+			if code := ee.Code(); code == 101 || code == 102 || code == 103 {
+				e.n(1, code)
+			} else {
+				e.n(1, wildcard) // an engine error the model does not know: compared as "rejected" only
+			}
 			if s != nil {
 				e.session(s) // the session after a rejected resume (the model says: as it was)
 				if sp != nil {
